@@ -119,11 +119,24 @@ pub struct Upload(pub usize);
 impl Upload {
     /// Get the upload value.
     pub fn value(&self, ctx: &Context<'_>) -> std::io::Result<UploadValue> {
-        ctx.query_env
+        #[allow(unused_mut)]
+        let mut value = ctx
+            .query_env
             .uploads
             .get(self.0)
             .ok_or_else(|| std::io::Error::other("upload does not exist"))?
-            .try_clone()
+            .try_clone()?;
+
+        // Cloned file handles share one cursor, so a file that is bound to several
+        // variable paths (or read more than once) has to be rewound before it is
+        // handed out, otherwise every reader after the first sees an empty file.
+        #[cfg(feature = "tempfile")]
+        {
+            use std::io::Seek;
+            value.content.rewind()?;
+        }
+
+        Ok(value)
     }
 }
 
